@@ -76,13 +76,23 @@ fn check_codec_inner(case: &CodecCase) -> CaseResult {
     let mut drained = 0usize;
     for (i, piece) in pieces.iter().enumerate() {
         let m = if case.enc.methods.is_empty() { &Method::Anchored } else { &case.enc.methods[i % case.enc.methods.len()] };
+        if !case.enc.nudges.is_empty() {
+            codec::apply_nudge(encoder.consumer().arena(), case.enc.nudges[i % case.enc.nudges.len()]);
+        }
         match m {
             Method::Borrow => encoder.encode(piece),
             Method::Copy => encoder.encode_copy(piece),
-            _ => {
+            Method::Anchored => {
                 let mut src = *piece;
                 let a = encoder.read_n(&mut src, piece.len(), NonZeroUsize::new(2).unwrap()).map_err(|e| Fail::new("read_n:error", e.to_string()))?;
                 encoder.encode_anchored(a);
+            }
+            Method::Read { .. } => {
+                let mut src = *piece;
+                let n = encoder.encode_read(&mut src, piece.len(), NonZeroUsize::new(2).unwrap()).map_err(|e| Fail::new("encode_read:error", e.to_string()))?;
+                if n != piece.len() {
+                    return Err(Fail::new("encode_read:count", format!("encode_read returned {n} for a {}-byte slice reader", piece.len())));
+                }
             }
         }
         check_visible("encoder", &encoder.consumer(), &expected, drained, &lent)?;
@@ -124,16 +134,23 @@ fn check_codec_inner(case: &CodecCase) -> CaseResult {
     let mut ddrained = 0usize;
     for (i, piece) in dpieces.iter().enumerate() {
         let m = if case.dec.methods.is_empty() { &Method::Anchored } else { &case.dec.methods[i % case.dec.methods.len()] };
+        if !case.dec.nudges.is_empty() {
+            codec::apply_nudge(decoder.consumer().arena(), case.dec.nudges[i % case.dec.nudges.len()]);
+        }
         let r = match m {
-            Method::Borrow => decoder.decode(piece),
-            Method::Copy => decoder.decode_copy(piece),
-            _ => {
+            Method::Borrow => decoder.decode(piece).map_err(|e| e.to_string()),
+            Method::Copy => decoder.decode_copy(piece).map_err(|e| e.to_string()),
+            Method::Anchored => {
                 let mut src = *piece;
                 let a = decoder.read_n(&mut src, piece.len(), NonZeroUsize::new(2).unwrap()).map_err(|e| Fail::new("read_n:error", e.to_string()))?;
-                decoder.decode_anchored(a)
+                decoder.decode_anchored(a).map_err(|e| e.to_string())
+            }
+            Method::Read { .. } => {
+                let mut src = *piece;
+                decoder.decode_read(&mut src, piece.len(), NonZeroUsize::new(2).unwrap()).map(|_| ()).map_err(|e| e.to_string())
             }
         };
-        r.map_err(|e| Fail::new("decoder:rejected-valid-stream", e.to_string()))?;
+        r.map_err(|e| Fail::new("decoder:rejected-valid-stream", e))?;
         check_visible("decoder", &decoder.consumer(), &plain, ddrained, &dlent)?;
         let action = if case.dec.drains.is_empty() { Drain::AdvanceFrac(100) } else { case.dec.drains[i % case.dec.drains.len()] };
         let before = owning_iovec::verif::retired_chunks().len();
@@ -177,6 +194,9 @@ pub struct StreamCase {
     pub drop_order: Vec<u8>,
     /// Keep a clone of every k-th record (reader) / every chunk (chunker).
     pub keep_every: u8,
+    /// Arena action applied after record / chunk `i` (reader: through the record's `arena()`).
+    #[serde(default)]
+    pub nudges: Vec<codec::Nudge>,
 }
 
 /// StreamChunker: every Data chunk is held until the end and re-verified after every pump.
@@ -227,6 +247,9 @@ pub fn check_chunker(case: &StreamCase) -> CaseResult {
                     }
                     q = end;
                     held.push((s, start, end));
+                    if !case.nudges.is_empty() {
+                        codec::apply_nudge(&mut arena, case.nudges[held.len() % case.nudges.len()]);
+                    }
                 }
             }
             verify(&held)?;
@@ -297,6 +320,9 @@ pub fn check_reader(case: &StreamCase) -> CaseResult {
             if case.keep_every > 0 && records % case.keep_every as usize == 0 {
                 kept.push((iovec.clone(), want));
             }
+            if !case.nudges.is_empty() {
+                codec::apply_nudge(iovec.arena(), case.nudges[records % case.nudges.len()]);
+            }
             verify(&kept)?;
         }
         drop(sr);
@@ -315,27 +341,39 @@ pub fn check_reader(case: &StreamCase) -> CaseResult {
     })
 }
 
-fn anchored_codec_case() -> impl Strategy<Value = CodecCase> {
-    codec::codec_case(false).prop_map(|mut c| {
-        // Make anchored input the common case on both sides.
+fn anchored_codec_case(allow_large: bool) -> impl Strategy<Value = CodecCase> {
+    (codec::codec_case(allow_large), proptest::collection::vec(codec::nudge(), 1..5), proptest::collection::vec(codec::nudge(), 1..5)).prop_map(|(mut c, n1, n2)| {
+        // Make arena-read input (read_n + *_anchored, encode_read / decode_read) the common case
+        // on both sides, with arena turnovers forced at generated points.
         for side in [&mut c.enc, &mut c.dec] {
             if side.methods.is_empty() {
                 side.methods.push(Method::Anchored);
             }
             side.methods.push(Method::Anchored);
+            side.methods.push(Method::Read { script: vec![], attempts: 2 });
         }
+        c.enc.nudges = n1;
+        c.dec.nudges = n2;
         c.pre = Default::default();
         c
     })
 }
 
-fn stream_case() -> impl Strategy<Value = StreamCase> {
-    (stream_in::stream_spec(8), stream_in::delivery(), proptest::collection::vec(any::<u8>(), 0..8), 0u8..4).prop_map(|(stream, delivery, drop_order, keep_every)| StreamCase {
-        stream,
-        delivery,
-        drop_order,
-        keep_every,
-    })
+fn stream_case(max_tokens: usize) -> impl Strategy<Value = StreamCase> {
+    (
+        stream_in::stream_spec(max_tokens),
+        stream_in::delivery(),
+        proptest::collection::vec(any::<u8>(), 0..8),
+        0u8..4,
+        prop_oneof![1 => Just(vec![]), 1 => proptest::collection::vec(codec::nudge(), 1..5)],
+    )
+        .prop_map(|(stream, delivery, drop_order, keep_every, nudges)| StreamCase {
+            stream,
+            delivery,
+            drop_order,
+            keep_every,
+            nudges,
+        })
 }
 
 pub fn run(ctx: &Ctx, rep: &mut Report) {
@@ -344,18 +382,22 @@ pub fn run(ctx: &Ctx, rep: &mut Report) {
     let cases = ctx.share(ctx.tier.pick(10_000, 200_000));
     engine::drive(ctx, rep, "iovec-general-histories", iovec_sm::history(Mix::General, 80), cases, check_history);
     let cases = ctx.share(ctx.tier.pick(10_000, 200_000));
-    engine::drive(ctx, rep, "codec-anchored", anchored_codec_case(), cases, check_codec);
+    engine::drive(ctx, rep, "codec-anchored", anchored_codec_case(false), cases, check_codec);
+    let cases = ctx.share(ctx.tier.pick(400, 50_000));
+    engine::drive(ctx, rep, "codec-anchored-large", anchored_codec_case(true), cases, check_codec);
     let cases = ctx.share(ctx.tier.pick(20_000, 400_000));
-    engine::drive(ctx, rep, "chunker-held-chunks", stream_case(), cases, check_chunker);
+    engine::drive(ctx, rep, "chunker-held-chunks", stream_case(8), cases, check_chunker);
     let cases = ctx.share(ctx.tier.pick(20_000, 400_000));
-    engine::drive(ctx, rep, "reader-kept-records", stream_case(), cases, check_reader);
+    engine::drive(ctx, rep, "reader-kept-records", stream_case(8), cases, check_reader);
+    let cases = ctx.share(ctx.tier.pick(1_500, 100_000));
+    engine::drive(ctx, rep, "reader-kept-records-long", stream_case(60), cases, check_reader);
 }
 
 fn replay(_ctx: &Ctx, group: &str, case: &Value) -> CaseResult {
     match group {
-        "codec-anchored" => check_codec(&parse_case::<CodecCase>(case)?),
+        "codec-anchored" | "codec-anchored-large" => check_codec(&parse_case::<CodecCase>(case)?),
         "chunker-held-chunks" => check_chunker(&parse_case::<StreamCase>(case)?),
-        "reader-kept-records" => check_reader(&parse_case::<StreamCase>(case)?),
+        "reader-kept-records" | "reader-kept-records-long" => check_reader(&parse_case::<StreamCase>(case)?),
         _ => check_history(&parse_case::<History>(case)?),
     }
 }
